@@ -4,6 +4,7 @@
 mod util;
 mod m_canon;
 mod m_depfile;
+mod m_exec;
 mod m_hist;
 mod m_load;
 mod m_db;
@@ -34,6 +35,7 @@ fn main() {
         "db" => m_db::run(&mut ctx),
         "load" => m_load::run(&mut ctx),
         "hist" => m_hist::run(&mut ctx),
+        "exec" => m_exec::run(&mut ctx),
         "sched" => m_sched::run(&mut ctx),
         _ => {
             eprintln!("unknown mode {mode}");
